@@ -174,6 +174,14 @@ func (c *AppenderRefs) writeToAppenders(l Level, b []byte) {
 	}
 }
 
+// writeRawToAppenders forwards raw bytes to every child appender;
+// raw writes carry no level, so reference level ranges do not apply.
+func (c *AppenderRefs) writeRawToAppenders(b []byte) {
+	for _, r := range c.AppenderRefs {
+		r.Write(b)
+	}
+}
+
 // SyncLogger is a synchronous logger that immediately forwards events to appenders.
 type SyncLogger struct {
 	LoggerBase
@@ -198,7 +206,7 @@ func (c *SyncLogger) Append(e *Event) {
 
 // Write writes raw bytes directly to appenders.
 func (c *SyncLogger) Write(b []byte) {
-	c.writeToAppenders(MaxLevel, b)
+	c.writeRawToAppenders(b)
 }
 
 // BufferFullPolicy specifies what to do when an async buffer is full.
@@ -270,7 +278,7 @@ func (c *AsyncLogger) Start() error {
 				}
 				PutEvent(x)
 			case []byte:
-				c.writeToAppenders(MaxLevel, x)
+				c.writeRawToAppenders(x)
 			default: // for linter
 			}
 		}
